@@ -785,6 +785,9 @@ write_constant_value (const gchar *namespace,
     case GI_TYPE_TAG_DOUBLE:
       xml_printf (file, "%f", value->v_double);
       break;
+    case GI_TYPE_TAG_UNICHAR:
+      xml_printf (file, "%" G_GUINT32_FORMAT, value->v_uint32);
+      break;
     case GI_TYPE_TAG_UTF8:
     case GI_TYPE_TAG_FILENAME:
       xml_printf (file, "%s", value->v_string);
